@@ -7,6 +7,8 @@ import (
 
 	"github.com/go-kid/ioc/app"
 	"github.com/go-kid/ioc/configure"
+	"github.com/go-kid/ioc/container"
+	"github.com/go-kid/ioc/container/processors"
 	"github.com/go-kid/ioc/util/framework_helper"
 
 	"verif/internal/core"
@@ -82,6 +84,27 @@ type c12Case struct {
 	// HoldApp (runners): every runner wires the App itself; 1: their names sort before the App's own
 	// component name (created before it, the App nested inside the first runner's creation), 2: after
 	HoldApp int `json:"runners_hold_the_app,omitempty"`
+	// Decorate (processors): a further post-processor (priority-ordered, lowest Order value) wraps every
+	// post-processor created after it in a decorator that forwards the two initialization callbacks
+	// and exposes neither Order() nor Priority(): the participants keep the places their own
+	// classes and Order values give them
+	Decorate bool `json:"participants_decorated,omitempty"`
+}
+
+type c12Decorator struct {
+	processors.DefaultComponentPostProcessor
+}
+
+func (*c12Decorator) Naming() string { return "0-decorator" }
+func (*c12Decorator) Priority()      {}
+func (*c12Decorator) Order() int     { return math.MinInt }
+func (*c12Decorator) PostProcessAfterInitialization(c any, name string) (any, error) {
+	if p, ok := c.(container.ComponentPostProcessor); ok {
+		return &struct {
+			container.ComponentPostProcessor
+		}{p}, nil
+	}
+	return c, nil
 }
 
 func seqs(maxLen, nsym int, yield func([]int) bool) {
@@ -324,6 +347,9 @@ func c12RunSite(cs c12Case) (names []string, shared *scen.RT, o *scen.StartObs) 
 	if node3 != nil {
 		reg = append(reg, node3)
 	}
+	if cs.Decorate {
+		reg = append(reg, &c12Decorator{})
+	}
 	sp := scen.StartSpec{Ch: envx.Fixed("", nil), Comps: reg, Opts: opts, User: user, Base: base}
 	// the participants need the runtime that Start creates: give them a shared log first
 	shared = &scen.RT{}
@@ -396,6 +422,15 @@ func c12Sites(c *core.Ctx) {
 							}
 						}
 					}
+					// the participants decorated by an earlier processor
+					for _, k := range []int{0, factorialInt(n) - 1} {
+						if ok = yield(c12Case{Seq: s, Site: site, Perm: scen.NthPerm(n, k), Decorate: true}); !ok {
+							return false
+						}
+						if n == 1 {
+							break
+						}
+					}
 					// each participant in turn supplies a short-cut component
 					for sup := 1; sup <= n; sup++ {
 						for _, k := range []int{0, factorialInt(n) - 1} {
@@ -428,7 +463,7 @@ func c12Sites(c *core.Ctx) {
 		for _, s := range cs.Seq {
 			symn = append(symn, c12Sym(s))
 		}
-		key := "C12/" + cs.Site + "/" + core.Hash(cs.Seq, cs.Perm, cs.Lazy, cs.Late, cs.Supply, cs.HoldApp)
+		key := "C12/" + cs.Site + "/" + core.Hash(cs.Seq, cs.Perm, cs.Lazy, cs.Late, cs.Supply, cs.HoldApp, cs.Decorate)
 		if !o.OK() {
 			c.Outcome(cs.Site + "/start-failed")
 			c.Report(key, "start-failed", fmt.Sprintf("%s %v: start-up did not succeed: %v %s %s", cs.Site, symn, scen.FirstLine(o.Err), o.Panic, o.Abort), cs)
@@ -470,7 +505,11 @@ func c12Sites(c *core.Ctx) {
 		if !check(prefix) {
 			return
 		}
-		if cs.Site == "processors" {
+		if cs.Site == "processors" && cs.Decorate {
+			if !check("after:") {
+				return
+			}
+		} else if cs.Site == "processors" {
 			for _, pf := range []string{"after:", "binst:", "ainst:", "props:", "early:"} {
 				if !check(pf) {
 					return
